@@ -24,16 +24,22 @@ pub proof fn lemma_hdr_size_bounds(h: u8)
 // contract: the real next() calls fill_buf().unwrap().
 pub trait VBufRead: Sized {
     spec fn unread(&self) -> Seq<u8>;
+    spec fn avail(&self) -> int;  // number of bytes currently buffered (std: consume(amt) needs amt <= what fill_buf returned)
+    spec fn inv(&self) -> bool;   // the reader's own invariant (for LowMarkBufReader: wf(), low mark large enough, source never fails)
     fn fill_buf(&mut self) -> (r: std::io::Result<&[u8]>)
+        requires old(self).inv(),
         ensures
+            final(self).inv(),
             final(self).unread() == old(self).unread(),
             r is Ok,
+            r->Ok_0@.len() == final(self).avail(),
             r->Ok_0@.is_prefix_of(old(self).unread()),
             forall|index: int| #[trigger] spec_parse_storage(r->Ok_0@, index) == spec_parse_storage(old(self).unread(), index),
-            forall|index: int| #[trigger] spec_parse_serial(r->Ok_0@, index) == spec_parse_serial(old(self).unread(), index);
+            forall|index: int| #[trigger] spec_parse_serial(r->Ok_0@, index) == spec_parse_serial(old(self).unread(), index),
+            sh_pat(r->Ok_0@, 0) == sh_pat(old(self).unread(), 0);
     fn consume(&mut self, amt: usize)
-        requires amt <= old(self).unread().len(),
-        ensures final(self).unread() == old(self).unread().skip(amt as int);
+        requires old(self).inv(), amt <= old(self).avail(),
+        ensures final(self).inv(), final(self).unread() == old(self).unread().skip(amt as int), final(self).avail() == old(self).avail() - amt;
 }
 
 #[verifier::external_body]
@@ -53,7 +59,9 @@ pub open spec fn spec_next(u: Seq<u8>, det_sto: bool, det_ser: bool, index: int)
     let ser = spec_parse_serial(u, index);
     if !det_ser && sto is Msg {
         SNext { msg: Some(sto->Msg_1), consumed: sto->Msg_0, skipped: 0, det_sto: true, det_ser }
-    } else if !det_ser && sto is NotEnough {
+    } else if !det_ser && sto is NotEnough && (det_sto || sh_pat(u, 0)) {
+        // too short for a storage-framed message: stop, unless nothing is latched yet and the data does not start with
+        // a storage marker (then a shorter serial-framed message is still possible and is tried below)
         SNext { msg: None, consumed: 0, skipped: 0, det_sto, det_ser }
     } else if !det_ser && det_sto {
         // invalid, storage framing latched: skip one byte
@@ -61,7 +69,7 @@ pub open spec fn spec_next(u: Seq<u8>, det_sto: bool, det_ser: bool, index: int)
         let r = spec_next(u.skip(1), det_sto, det_ser, index);
         SNext { msg: r.msg, consumed: r.consumed + 1, skipped: r.skipped + 1, det_sto: r.det_sto, det_ser: r.det_ser } }
     } else {
-        // serial attempt (serial latched, or nothing latched and the storage parser said Invalid)
+        // serial attempt (serial latched, or nothing latched and the storage parser found no message)
         if ser is Msg {
             SNext { msg: Some(ser->Msg_1), consumed: ser->Msg_0, skipped: 0, det_sto, det_ser: true }
         } else if ser is NotEnough {
@@ -75,6 +83,7 @@ pub open spec fn spec_next(u: Seq<u8>, det_sto: bool, det_ser: bool, index: int)
 
 impl<'a, R: VBufRead> DltMessageIterator<'a, R> {
     pub open spec fn wf(&self) -> bool {
+        &&& self.reader.inv()
         &&& !(self.detected_storage_header && self.detected_serial_header)
         &&& self.bytes_skipped <= self.bytes_processed
         &&& self.bytes_processed + self.reader.unread().len() <= usize::MAX
@@ -82,7 +91,7 @@ impl<'a, R: VBufRead> DltMessageIterator<'a, R> {
 
 //@ extract src/utils/dltmessageiterator.rs DltMessageIterator::new
 //@   spec
-//@|    requires reader.unread().len() <= usize::MAX,
+//@|    requires reader.unread().len() <= usize::MAX, reader.inv(),
 //@|    ensures
 //@|        r.wf(), // O:iter.new.wf
 //@|        r.index == start_index && r.bytes_processed == 0 && r.bytes_skipped == 0,
